@@ -11,7 +11,8 @@ RULE = ('texts = token-level mutations (delete/duplicate/swap/replace/insert, id
         'valid generated programs and repo snippets + statement-form sweep (every statement keyword with '
         'missing/extra/wrongly-typed operands in main, SUB, block and one-line IF) + the namespace family (one base name '
         'declared as SUB/FUNCTION/variable/array/CONST/TYPE/label/record/parameter/STATIC with every type suffix and used as '
-        'each of ~190 other things, in the main program and in a procedure) + the unmutated programs; each '
+        'each of ~190 other things, in the main program and in a procedure) + numeric literals at every type/format limit in '
+        'every place a number can stand (49 spellings x 60 contexts, all six configurations) + the unmutated programs; each '
         'compiled at 2 of the 6 configurations (sweep: all 6), accepted ones also assembled (bytes) and listed (str); '
         'non-trivial = text reached the parser with >=1 statement; distinct = text hash with digits erased')
 ASSUMPTIONS = ['termination is judged by a 30 s then 90 s wall-clock guard per compilation (a text that exceeds both '
@@ -180,6 +181,28 @@ def ns_space():
     return [(di, ui, w) for di in range(len(NS_DECLS)) for ui in range(len(NS_USES)) for w in ('main', 'sub')]
 
 
+# --- numeric literal x context: every spelling of a number at a type or format limit in every place a number can stand
+LC_LITERALS = ['32767', '32768', '2147483647', '2147483648', '1E+38', '3.5E+38', '1E+39', '1D+308', '1.8D+308', '1D+309', '1D+400',
+               '1E+400', '9' * 40, '9' * 400, '1E-46', '1D-400', '&H7FFF', '&H8000', '&HFFFF', '&H10000', '&HFFFFFFFF', '&H100000000',
+               '&O177777', '&O200000', '&O', '.', '1.', '.E5', '1E', '1E+', '0.' + '0' * 45 + '1', '1%', '32768%', '1&', '2147483648&', '1!',
+               '3.5E+38!', '1#', '1D+309#', '1E5%', '1.5&', '0', '1.5', '&H', '1E5', '1D5', '00012', '1e5', '1d5']
+LC_CONTEXTS = ['x% = {L}', 'x& = {L}', 'x! = {L}', 'x# = {L}', 'DIM q({L})', 'DIM q({L} TO {L})', 'arr({L}) = 1', 'x = arr({L})', 'LOCATE {L}',
+               'FOR i% = 1 TO {L}\nNEXT', 'FOR i% = {L} TO 2\nNEXT', 'FOR i = 1 TO 2 STEP {L}\nNEXT', 'PRINT {L}', 'PRINT -{L}',
+               'CONST cq = {L}\nx% = cq', 'CONST cq% = {L}', 'x% = {L} + 1', 'x% = {L} * {L}', 'x% = CINT({L})', 'x& = CLNG({L})', 'x = {L} ^ 2',
+               'x = 2 ^ {L}', 'IF {L} THEN PRINT 1', 'WHILE {L}\nWEND', 'SELECT CASE {L}\nCASE 1\nEND SELECT', 'SELECT CASE 1\nCASE {L}\nEND SELECT',
+               'SELECT CASE 1\nCASE 0 TO {L}\nEND SELECT', 's {L}', 'x = f({L})', 'x$ = CHR$({L})', 'x$ = SPACE$({L})', 'x$ = STRING$({L}, 65)',
+               'x$ = LEFT$("abc", {L})', 'x$ = MID$("abc", {L}, {L})', 'POKE {L}, {L}', 'SOUND {L}, {L}', 'DATA {L}', 'WIDTH {L}', 'COLOR {L}',
+               'x = PEEK({L})', 'RANDOMIZE {L}', 'DEF SEG = {L}', 'x = NOT {L}', 'x = {L} MOD 7', 'x = 7 \\ {L}', 'x = {L} AND 1', 'x = -{L}',
+               'x = ABS({L})', 'x = INT({L})', 'x$ = STR$({L})', 'PRINT USING "##"; {L}', 'GOTO {L}', 'RESTORE {L}', '{L} PRINT 1',
+               'VIEW PRINT {L} TO {L}', 'SCREEN {L}', 'x = ({L})', 'x = {L}{L}', 'x = {L} {L}', 'IF 1 THEN {L}']
+LC_HEAD = 'DIM arr(5) AS INTEGER\n'
+LC_TAIL = '\nEND\nSUB s (p%)\nEND SUB\nFUNCTION f (p%)\nf = p%\nEND FUNCTION\n'
+
+
+def litctx_space():
+    return [(li, ci) for li in range(len(LC_LITERALS)) for ci in range(len(LC_CONTEXTS))]
+
+
 def contexts(form):
     body = form.replace(' : ', '\n') if (' : ' in form and not form.startswith(('IF', 'PRINT', 'REM', 'DATA', "'", 'CONST c = 1 :'))) else form
     yield 'main', PRELUDE + body + POSTLUDE
@@ -229,6 +252,11 @@ def gen_cases(tier, seed):
         space = random.Random(seed * 31 + 5).sample(space, 1400)
     for i in range(0, len(space), 50):
         cs.append({'kind': 'ns', 'items': space[i:i + 50]})
+    lsp = litctx_space()
+    if tier == 'quick':
+        lsp = random.Random(seed * 17 + 3).sample(lsp, len(lsp) // 5)
+    for i in range(0, len(lsp), 60):
+        cs.append({'kind': 'litctx', 'items': lsp[i:i + 60]})
     forms = list(STMT_FORMS)
     B = 6
     for i in range(0, len(forms), B):
@@ -288,6 +316,15 @@ def run_case(case):
             shapes.append(shape_of(mt))
             if sample is None and j == 1:
                 sample = {'mutated_text': mt[:400]}
+    elif case['kind'] == 'litctx':
+        st['literal_context_texts'] = 0
+        for li, ci in case['items']:
+            text = LC_HEAD + LC_CONTEXTS[ci].replace('{L}', LC_LITERALS[li]) + LC_TAIL
+            st['literal_context_texts'] += 1
+            check_text(text, rt.CONFIGS6, st, viol, f'literal {LC_LITERALS[li][:24]!r} in {LC_CONTEXTS[ci]!r}')
+            shapes.append(f'litctx|{li}|{ci}')
+        li, ci = case['items'][0]
+        sample = {'literal_in_context': LC_CONTEXTS[ci].replace('{L}', LC_LITERALS[li])[:200]}
     elif case['kind'] == 'ns':
         st['namespace_texts'] = 0
         for di, ui, w in case['items']:
